@@ -37,6 +37,7 @@ type frtProvSc struct {
 	Local    []int          `json:"local,omitempty"` // provider numbers stored locally
 	LocalAdr bool           `json:"local_addr,omitempty"`
 	CancelMs int            `json:"cancel_ms,omitempty"`
+	SlowReadMs int          `json:"slow_read_ms,omitempty"` // the consumer pauses this long after every provider it reads
 }
 
 // providers come from a pool of their own (the crawled peers use the whole peer pool)
@@ -69,6 +70,9 @@ func TestVerif_C08_FullRT(t *testing.T) {
 			sc.LocalAdr = rapid.Bool().Draw(t, "localAddr")
 			if verifsim.Chance(t, "cancel", 15) {
 				sc.CancelMs = rapid.IntRange(1, 4000).Draw(t, "cancelMs")
+			}
+			if verifsim.Chance(t, "slowRead", 35) {
+				sc.SlowReadMs = rapid.SampledFrom([]int{1, 40, 700, 3000}).Draw(t, "slowReadMs")
 			}
 			return sc
 		},
@@ -147,8 +151,21 @@ func TestVerif_C08_FullRT(t *testing.T) {
 				}
 				for p := range d.FindProvidersAsync(ctx, cid.NewCidV1(cid.Raw, mh.Multihash(key)), sc.Count) {
 					emits = append(emits, emit{sim.Now(), p.ID, len(p.Addrs)})
+					time.Sleep(time.Duration(sc.SlowReadMs) * time.Millisecond)
 				}
 				closedAt = sim.Now()
+				if sc.SlowReadMs > 0 {
+					// a pausing consumer sees the channel close later than the search ended: the search ends with its last exchange
+					var lastExchange time.Duration
+					for _, e := range sim.Log() {
+						if e.Kind == "request" && e.Type == pb.Message_GET_PROVIDERS && e.End > lastExchange {
+							lastExchange = e.End
+						}
+					}
+					if lastExchange > 0 && lastExchange < closedAt {
+						closedAt = lastExchange
+					}
+				}
 				cancel()
 				time.Sleep(time.Minute)
 				log = sim.Log()
